@@ -57,6 +57,10 @@ def match_batch(requests: List[Dict[str, Any]], reply_text: Optional[str], stric
             missing = [c for c in call_ids if not any(same_id(c, i) for i in ids if i is not None)]
             if missing:
                 return {'verdict': 'identity', 'why': f'missing {missing!r} (null-id entries answer no call)'}
+            # ... and "repeats an id" is stated without a condition on the rest of the array
+            named = [i for i in ids if i is not None]
+            if any(same_id(named[a], named[b]) for a in range(len(named)) for b in range(a + 1, len(named))):
+                return {'verdict': 'identity', 'why': 'repeated id (next to a null-id entry)'}
         return {'verdict': 'open', 'why': 'null id inside a batch reply'}
     for a in range(len(ids)):
         for b in range(a + 1, len(ids)):
